@@ -1004,6 +1004,29 @@ example : orderly false [.chunk { tools := some [⟨0, "", "", "{}"⟩] }] = fal
     framed (run fixed [.chunk { tools := some [⟨0, "", "", "{}"⟩] }]) = true ∧
     wellFormed (run fixed [.chunk { tools := some [⟨0, "", "", "{}"⟩] }]) = false := by decide
 
+/-! ### Refusing bodies that are no completion stream
+
+The repaired translator refuses (error, nothing written) exactly the bodies without a chunk and
+without `[DONE]`; every completion stream is translated, and by `run`, so every theorem above
+applies to whatever it emits. -/
+
+theorem C13_transform_is_run (v : Variant) (cfg : Cfg) (d : Bool) (lines : List Line) (evs : List OutEv)
+    (h : transform v cfg d lines = some evs) : evs = run cfg lines := by
+  unfold transform at h
+  split at h
+  · cases h
+  · exact (Option.some.inj h).symm
+
+theorem C13_completions_never_refused (v : Variant) (cfg : Cfg) (d : Bool) (lines : List Line)
+    (h : isStream d lines = true) : transform v cfg d lines = some (run cfg lines) := by
+  unfold transform
+  simp [h]
+
+theorem C13_refused_iff_not_a_stream (cfg : Cfg) (d : Bool) (lines : List Line) :
+    transform .fixed cfg d lines = none ↔ isStream d lines = false := by
+  unfold transform
+  cases isStream d lines <;> simp
+
 /-! ### tie: no process-wide state on the modelled path
 
 The theorems above are about single calls (or the history of one object). They cover every
